@@ -906,6 +906,44 @@ def mini_exec(fn: ast.FunctionDef, args: Dict[str, object], budget: int = 2000, 
                 return l_ % r_
             except (TypeError, ZeroDivisionError):
                 raise _PathEval.Unknown("modulo on these samples")
+        if isinstance(e, ast.Call) and unparse(e.func) in ("Path", "pathlib.Path", "PurePath", "pathlib.PurePath", "PurePosixPath") and len(e.args) >= 1 \
+                and not (isinstance(e.func, ast.Name) and e.func.id in env):
+            import pathlib as _pl
+            a_ = [ev(x) for x in e.args]
+            if not all(isinstance(x, (str, _pl.PurePath)) for x in a_):
+                raise _PathEval.Unknown("Path of something that is not text")
+            return _pl.PurePosixPath(*a_)
+        if isinstance(e, ast.Call) and unparse(e.func) in ("os.path.basename", "os.path.dirname", "os.path.splitext", "os.path.join", "osp.basename", "osp.dirname",
+                                                            "osp.splitext", "osp.join", "os.path.normpath", "osp.normpath", "os.fspath", "str.lower"):
+            import posixpath as _pp
+            a_ = [str(ev(x)) if not isinstance(ev(x), str) and hasattr(ev(x), "as_posix") else ev(x) for x in e.args]
+            if not all(isinstance(x, str) for x in a_):
+                raise _PathEval.Unknown("path function on something that is not text")
+            nm_ = unparse(e.func).split(".")[-1]
+            if nm_ == "fspath":
+                return a_[0]
+            r_ = getattr(_pp, nm_)(*a_)
+            return list(r_) if isinstance(r_, tuple) else r_
+        if isinstance(e, ast.Attribute) and e.attr in ("stem", "name", "suffix", "parent", "parts", "suffixes"):
+            import pathlib as _pl
+            try:
+                base_ = ev(e.value)
+            except _PathEval.Unknown:
+                base_ = None
+            if isinstance(base_, _pl.PurePath):
+                r_ = getattr(base_, e.attr)
+                return list(r_) if isinstance(r_, tuple) else r_
+        if isinstance(e, ast.Call) and isinstance(e.func, ast.Attribute) and e.func.attr in ("with_suffix", "with_name", "joinpath", "as_posix", "relative_to", "is_absolute"):
+            import pathlib as _pl
+            try:
+                base_ = ev(e.func.value)
+            except _PathEval.Unknown:
+                base_ = None
+            if isinstance(base_, _pl.PurePath):
+                try:
+                    return getattr(base_, e.func.attr)(*[ev(x) for x in e.args])
+                except (ValueError, TypeError) as ex:
+                    raise _Raised(str(ex))
         if isinstance(e, ast.Call) and unparse(e.func) in ("textwrap.indent", "textwrap.dedent", "indent", "dedent") and \
                 (isinstance(e.func, ast.Attribute) or e.func.id not in env):
             import textwrap as _tw
@@ -3482,3 +3520,124 @@ def rule_containers_registered_before_they_are_judged(ctx, rep: Report, rid="T18
                     f"{ci.mod.rel}:{c.lineno}", nontrivial=bool(tests))
     if n < 1:
         raise AnalysisError(f"{rep.prop}/{rid}: no list registered in self.content by wrap_namespace")
+
+
+def _st_writes(st) -> Set[str]:
+    out: Set[str] = set()
+
+    def root(x):
+        while isinstance(x, (ast.Attribute, ast.Subscript)):
+            x = x.value
+        return x.id if isinstance(x, ast.Name) else None
+    if isinstance(st, ast.Assign):
+        for t in st.targets:
+            for y in (t.elts if isinstance(t, (ast.Tuple, ast.List)) else [t]):
+                r = root(y.value if isinstance(y, ast.Starred) else y)
+                if r:
+                    out.add(r)
+    elif isinstance(st, (ast.AugAssign, ast.AnnAssign)):
+        r = root(st.target)
+        if r:
+            out.add(r)
+    elif isinstance(st, ast.Expr) and isinstance(st.value, ast.Call) and isinstance(st.value.func, ast.Attribute) \
+            and st.value.func.attr in ("append", "extend", "insert", "update", "setdefault", "add", "pop", "remove", "sort", "reverse", "clear"):
+        r = root(st.value.func.value)
+        if r:
+            out.add(r)
+    elif isinstance(st, ast.FunctionDef):
+        out.add(st.name)
+    return out
+
+
+def slice_eval(fn, target: ast.expr, env: Dict[str, object], **kw):
+    """The value of `target` (an expression inside fn) on the sample environment: only the statements of fn that the value depends
+    on - the backward slice, with the headers of the loops and conditions around them - are run, up to the statement that holds
+    the expression.  A big emitter can thus be asked for one slot of its template without interpreting the rest of it."""
+    import copy as _copy
+    holder = target
+    while not isinstance(holder, ast.stmt):
+        holder = parent(holder)
+    inside = set()
+    x = holder
+    while x is not None and x is not fn:
+        inside.add(id(x))
+        x = parent(x)
+    bound_inside = {t.id for c in ast.walk(target) if isinstance(c, ast.comprehension) for t in ast.walk(c.target) if isinstance(t, ast.Name)}
+    needed = {n.id for n in ast.walk(target) if isinstance(n, ast.Name) and isinstance(n.ctx, ast.Load)} - bound_inside
+    before = [st for st in walk_no_nested(fn) if isinstance(st, ast.stmt) and (st.lineno, st.col_offset) < (holder.lineno, holder.col_offset) and st is not holder]
+    changed = True
+    kept: Set[int] = set()
+    while changed:
+        changed = False
+        for st in before:
+            if id(st) in kept:
+                continue
+            w = _st_writes(st)
+            if isinstance(st, (ast.For, ast.comprehension)):
+                w |= {t.id for t in ast.walk(st.target) if isinstance(t, ast.Name)}
+            if w & needed and not isinstance(st, (ast.If, ast.While, ast.With, ast.Try)) or (isinstance(st, ast.For) and w & needed):
+                kept.add(id(st))
+                changed = True
+                reads = {n.id for n in ast.walk(st.iter if isinstance(st, ast.For) else st) if isinstance(n, ast.Name) and isinstance(n.ctx, ast.Load)}
+                needed |= reads
+                # the conditions and loops around a kept statement decide whether it runs
+                p_ = parent(st)
+                while p_ is not None and p_ is not fn:
+                    if isinstance(p_, (ast.If, ast.While)):
+                        needed |= {n.id for n in ast.walk(p_.test) if isinstance(n, ast.Name)}
+                    elif isinstance(p_, ast.For):
+                        needed |= {n.id for n in ast.walk(p_.iter) if isinstance(n, ast.Name)}
+                        if id(p_) not in kept:
+                            kept.add(id(p_))
+                    p_ = parent(p_)
+
+    def build(block):
+        out = []
+        for st in block:
+            if st is holder:
+                r = ast.Return(value=target)
+                ast.copy_location(r, st)
+                out.append(r)
+                return out, True
+            if id(st) in inside:
+                new = _copy.copy(st)
+                done = False
+                for fld in ("body", "orelse", "finalbody"):
+                    blk = getattr(st, fld, None)
+                    if isinstance(blk, list) and any(id(b) in inside or b is holder for b in blk):
+                        nb, done = build(blk)
+                        setattr(new, fld, nb)
+                    elif isinstance(blk, list):
+                        setattr(new, fld, [])
+                if isinstance(st, ast.Try):
+                    new.handlers = []
+                if isinstance(st, ast.With):
+                    out.extend(new.body)          # the context manager itself is not part of the value
+                else:
+                    out.append(new)
+                return out, done
+            if isinstance(st, (ast.If, ast.For, ast.While, ast.With, ast.Try)):
+                new = _copy.copy(st)
+                any_kept = False
+                for fld in ("body", "orelse", "finalbody"):
+                    blk = getattr(st, fld, None)
+                    if isinstance(blk, list):
+                        nb, _ = build(blk)
+                        setattr(new, fld, nb)
+                        any_kept = any_kept or bool(nb)
+                if isinstance(st, ast.Try):
+                    new.handlers = []
+                if any_kept:
+                    if not new.body:
+                        new.body = [ast.Pass()]
+                    out.append(new)
+            elif id(st) in kept:
+                out.append(st)
+        return out, False
+    body, reached = build(fn.body)
+    if not reached:
+        raise _PathEval.Unknown("the expression was not reached while slicing")
+    probe = _copy.copy(fn)
+    probe.body = body
+    probe.decorator_list = []
+    return mini_exec(probe, env, **kw)
